@@ -147,6 +147,20 @@ func main() {
 				os.Exit(1)
 			}
 			fmt.Println("no violation")
+		case "C07":
+			var rp exclReplay
+			a.LoadReplay(&rp)
+			var spec [][]string
+			for _, d := range rp.Spec {
+				spec = append(spec, strings.Split(d, "/"))
+			}
+			kind, detail := checkExclusion(u.ByName[rp.Wrapper], spec, rp.Mode, rp.Offset)
+			fmt.Printf("type %s spec %v mode %s offset %d\n", rp.Wrapper, rp.Spec, rp.Mode, rp.Offset)
+			if kind != "" {
+				fmt.Println("FAIL:", kind, detail)
+				os.Exit(1)
+			}
+			fmt.Println("no violation")
 		case "C13":
 			var rp defReplay
 			a.LoadReplay(&rp)
@@ -207,6 +221,8 @@ func main() {
 		partC04(a, rep, univName, u)
 	case "C06":
 		partC06(a, rep, univName, u)
+	case "C07":
+		partC07(a, rep, univName, u)
 	case "C10":
 		partC10(a, rep, univName, u)
 	case "C13":
